@@ -319,6 +319,11 @@ func (f *File) writeStd(p []byte) (int, error) {
 			return room, pathErr("write", f.name, errno(StdoutFault))
 		}
 	}
+	if b.Len() > 32<<20 {
+		// runaway output: keep the first 32 MB, count the rest (a resource guard, not a fault)
+		Fired["stdout-capture-capped"]++
+		return len(p), nil
+	}
 	return b.Write(p)
 }
 
